@@ -44,9 +44,10 @@ def infoEntry (text : Str) : Entry :=
   { selector := lit "fake", name := some text, host := some (lit "(NULL)"), port := some 0,
     type := some (lit "i") }
 
-/-- `str(x)` for an optional type: Python formats `None` as "None" -/
+/-- `entry.gettype("0")`: an entry without a type is a document, in the menu line and in its URL alike
+    (before repo commit "an entry without a type is a document in its gopher:// URL too" the URL said `None`) -/
 def pyStrOpt : Option Str → Str
-  | none => lit "None"
+  | none => lit "0"
   | some s => s
 
 /-- `GopherEntry.geturl(defaulthost, defaultport)`; `none` = `UnicodeEncodeError` from quote -/
